@@ -293,6 +293,7 @@ def run(ck: core.Check, prove: bool = True):
         "max_graphs": 0,
         "max_depth": 0,
         "ctrl_output_used_in_two_unrelated_scopes_of_different_depth": 0,
+        "initializer_scoped_in_a_body": 0,
         "families": {},
         "wf_false": 0,
         "facets_compared": {},
@@ -323,6 +324,8 @@ def run(ck: core.Check, prove: bool = True):
         shape = _shape_stats(ap)
         stats["max_depth"] = max(stats["max_depth"], shape["depth"])
         stats["ctrl_output_used_in_two_unrelated_scopes_of_different_depth"] += int(shape["ctrl_cross"])
+        so = r["facets"].get("scope_of") or []
+        stats["initializer_scoped_in_a_body"] += int(any(v >= 0 and g != 0 and ap["nodes"][v]["k"] == "init" for v, g in so))
         stats["leaky_programs"] += int(r["leaky"])
         stats["reuse_programs"] += int(r["reuse"])
         stats["verdicts"][r["verdict"]] = stats["verdicts"].get(r["verdict"], 0) + 1
@@ -351,7 +354,7 @@ def run(ck: core.Check, prove: bool = True):
                     mf = L.model_facets(m)
                     if r["trace"] is not None:
                         stats["facets_compared"]["trace"] = stats["facets_compared"].get("trace", 0) + 1
-                        if mf["trace"] != r["trace"]:
+                        if L.drop_initializers(ap, mf["trace"]) != r["trace"]:
                             mismatch("trace", ap, r["trace"], mf["trace"])
                     for facet, val in r["facets"].items():
                         stats["facets_compared"][facet] = stats["facets_compared"].get(facet, 0) + 1
